@@ -7,6 +7,8 @@
  * result_t::update x2 / done and early_stopping_t::done are used through the contracts proved in their own targets;
  * the two constructors and the accessors round() / values() are extracted and executed. */
 #include "early_stopping.h"
+#include "monitor.h"
+#include "history.h"
 #include "boost.h"
 #include "selected.h"
 
@@ -49,13 +51,16 @@ uint64_t nv_g_round;      /* ghost index: an arbitrary round, fixed before the c
 uint64_t nv_g_values;     /* identity of `values` when the monitor was consulted with nv_g_round learners */
 int64_t  nv_rows;         /* rows allocated for m_statistics by the result_t constructor */
 _Bool    nv_mon_stopped;  /* the monitor has answered `stop` */
+uint64_t nv_obs_values;   /* identity of the values of the latest observation */
 
 void result_ctor(struct nv_result* self, const struct nv_tensor2d* errors_values, const struct nv_indices* train_samples, const struct nv_indices* valid_samples, int64_t max_rounds);
 static struct nv_result nv_result_make(const struct nv_tensor2d* e, const struct nv_indices* t, const struct nv_indices* v, int64_t max_rounds)
 { struct nv_result r; result_ctor(&r, e, t, v, max_rounds); nv_appended = 0; nv_rows = r.m_statistics.rows; return r; }
 void early_stopping_ctor(struct nv_early_stopping* self, struct nv_tensor2d values);
 static struct nv_early_stopping nv_monitor_make(struct nv_tensor2d values)
-{ struct nv_early_stopping m; early_stopping_ctor(&m, values); nv_consulted = 0; nv_mon_stopped = 0; nv_mon_round = m.m_round; nv_mon_values = m.m_values.id; return m; }
+{ struct nv_early_stopping m; early_stopping_ctor(&m, values); nv_consulted = 0; nv_mon_stopped = 0; nv_mon_round = m.m_round; nv_mon_values = m.m_values.id;
+  nv_hist_begin(values.id);      /* the history of this fold starts here (history.h) */
+  return m; }
 
 void result_update3(struct nv_result* self, int64_t round, double shrinkage_ratio, const struct nv_state* state);
 void result_update4(struct nv_result* self, int64_t round, double shrinkage_ratio, const struct nv_state* state, struct nv_opaque* wlearner);
@@ -83,26 +88,22 @@ static _Bool nv_monitor_done(struct nv_early_stopping* self, const struct nv_ten
   __CPROVER_assert(wlearners->size == nv_appended, "fit: the monitor is consulted with the current learner list");
   __CPROVER_assert(NV_SAME(epsilon, nv_epsilon) && patience == nv_patience, "fit: the monitor is consulted with the configured epsilon and patience");
   __CPROVER_assert(!nv_mon_stopped, "fit: the monitor is not consulted again after it has stopped");
+  /* the observations ::fit feeds are a history of the history lemma (monitor_history): the k-th consultation (k = 0, 1, ..)
+   * sees k learners, on the same index lists */
+  __CPROVER_assert(wlearners->size == nv_consulted && nv_h_n == nv_consulted, "fit: the k-th consultation of the monitor (k = 0, 1, ..) is made with k weak learners");
+  __CPROVER_assert(train_samples->id == NV_ID_TRAIN && valid_samples->id == NV_ID_VALID, "fit: the monitor is consulted on the training / validation samples given to fit");
+  __CPROVER_assert(nv_consulted == 0 || errors_losses->id != nv_obs_values, "fit: every observation is made on values evaluated anew (not those of the previous observation)");
+  nv_obs_values = errors_losses->id;
   nv_train_value = nv_nondet_double(); nv_valid_value = nv_nondet_double();
   if (wlearners->size == nv_g_round) nv_g_values = errors_losses->id;
+  /* the statement's own account of this observation (ghost summaries of history.h) */
+  nv_hist_observe(nv_train_value, nv_valid_value, valid_samples->n != 0, wlearners->size, errors_losses->id, epsilon, patience);
   _Bool r = early_stopping_done(self, errors_losses, train_samples, valid_samples, wlearners, epsilon, patience);
   nv_consulted = nv_consulted + 1; nv_mon_stopped = r; nv_mon_round = self->m_round; nv_mon_values = self->m_values.id;
   return r;
 }
 
-/* early_stopping_t::early_stopping_t(values): no improvement accepted yet -- round 0, the value +max (every finite
- * validation error improves on it), the snapshot is the given one */
-#define NV_DBL_MAX 1.7976931348623157e308
-#define NV_CONTRACT_early_stopping_ctor \
-__CPROVER_requires(__CPROVER_is_fresh(self, sizeof(*self))) \
-__CPROVER_assigns(*self) \
-__CPROVER_ensures(self->m_round == 0 && self->m_value == NV_DBL_MAX && self->m_values.id == values.id && self->m_values.rows == values.rows && self->m_values.cols == values.cols)
-#define NV_CONTRACT_early_stopping_round \
-__CPROVER_requires(__CPROVER_is_fresh(self, sizeof(*self))) __CPROVER_assigns() __CPROVER_ensures(__CPROVER_return_value == self->m_round)
-#define NV_CONTRACT_early_stopping_value \
-__CPROVER_requires(__CPROVER_is_fresh(self, sizeof(*self))) __CPROVER_assigns() __CPROVER_ensures(NV_SAME(__CPROVER_return_value, self->m_value))
-#define NV_CONTRACT_early_stopping_values \
-__CPROVER_requires(__CPROVER_is_fresh(self, sizeof(*self))) __CPROVER_assigns() __CPROVER_ensures(__CPROVER_return_value == &self->m_values)
+/* contracts of the monitor's constructor and accessors: monitor.h */
 
 /* result_t::result_t(values, train, valid, max_rounds): no learners, a statistics row of 8 columns for each of the
  * rounds 0 .. max_rounds (at least max_rounds + 1 rows) */
@@ -119,7 +120,8 @@ __CPROVER_requires(__CPROVER_is_fresh(train_samples, sizeof(*train_samples)) && 
 __CPROVER_requires(train_samples->id == NV_ID_TRAIN && valid_samples->id == NV_ID_VALID && train_samples->n >= 0 && valid_samples->n >= 0) \
 /* ASSUMED parameter domains (registered in gboost_model_t::gboost_model_t; C19) */ \
 __CPROVER_requires(10 <= nv_max_rounds && nv_max_rounds <= 1000000 && 1 <= nv_patience && nv_patience <= 1000) \
-__CPROVER_assigns(nv_id_counter, nv_appended, nv_consulted, nv_mon_round, nv_mon_values, nv_g_values, nv_rows, nv_mon_stopped, nv_train_value, nv_valid_value, nv_stat_sink, nv_kept, nv_sel_rows, __CPROVER_object_whole(nv_sel_row), __CPROVER_object_whole(nv_sel_id), __CPROVER_object_whole(nv_sel_by)) \
+__CPROVER_assigns(nv_h_n, nv_h_last, nv_h_value, nv_h_snap, nv_h_since, nv_h_below, nv_h_acc, nv_h_stop, nv_h_acc_j, nv_h_snap_j) \
+__CPROVER_assigns(nv_id_counter, nv_appended, nv_consulted, nv_mon_round, nv_mon_values, nv_g_values, nv_rows, nv_mon_stopped, nv_obs_values, nv_train_value, nv_valid_value, nv_stat_sink, nv_kept, nv_sel_rows, __CPROVER_object_whole(nv_sel_row), __CPROVER_object_whole(nv_sel_id), __CPROVER_object_whole(nv_sel_by)) \
 /* the monitor was consulted once before the first round and once per appended learner, except for the learner of an \
  * early exit (scaling failed): that one is appended without consulting the monitor */ \
 __CPROVER_ensures(nv_thrown || (nv_consulted == nv_appended + 1 || nv_consulted == nv_appended)) \
@@ -130,16 +132,29 @@ __CPROVER_ensures(nv_thrown || (NV_RET._0.m_statistics.rows == (int64_t)nv_mon_r
 /* the returned per-sample values are the monitor's snapshot -- the `values` of the round it reports -- selected by the \
  * training resp. validation samples */ \
 __CPROVER_ensures(nv_thrown || (NV_RET._1.id == nv_mon_values && NV_RET._1.by == NV_ID_TRAIN && NV_RET._2.id == nv_mon_values && NV_RET._2.by == NV_ID_VALID)) \
-__CPROVER_ensures(nv_thrown || nv_mon_round != nv_g_round || nv_mon_values == nv_g_values)
+__CPROVER_ensures(nv_thrown || nv_mon_round != nv_g_round || nv_mon_values == nv_g_values) \
+/* HISTORY LEVEL (history.h; the statement's summaries of the history of observations this call fed to the monitor): the fold \
+ * model keeps exactly as many learners as the round of the LAST ACCEPTED IMPROVEMENT of that history, the returned per-sample \
+ * values are that round's, every observation was made (nv_h_n == consultations), and the monitor's last answer is the \
+ * statement's verdict */ \
+__CPROVER_ensures(nv_thrown || (nv_kept == nv_h_last && nv_h_n == nv_consulted && nv_h_n >= 1 && nv_h_last < nv_h_n)) \
+__CPROVER_ensures(nv_thrown || (NV_RET._1.id == nv_h_snap && NV_RET._2.id == nv_h_snap)) \
+__CPROVER_ensures(nv_thrown || ((nv_mon_stopped != 0) == (nv_h_stop != 0))) \
+/* ghost round nv_h_j: no observation after the kept round was an accepted improvement; the kept round's own observation \
+ * was one (or nothing was ever accepted and the model keeps 0 learners), and the returned values are the ones it observed */ \
+__CPROVER_ensures(nv_thrown || nv_h_j >= nv_h_n || ((nv_h_j > nv_kept ==> !nv_h_acc_j) && ((nv_h_j == nv_kept && nv_kept > 0) ==> nv_h_acc_j) && ((nv_h_j == nv_kept && nv_h_acc_j) ==> NV_RET._1.id == nv_h_snap_j)))
 
 #define NV_LOOP_gboost_fit_1 \
 __CPROVER_assigns(round, shrinkage_ratio, values.id, values.by, result.m_wlearners.size, optimum.m_round, optimum.m_value, optimum.m_values, \
-                  nv_id_counter, nv_appended, nv_consulted, nv_mon_round, nv_mon_values, nv_g_values, nv_mon_stopped, nv_train_value, nv_valid_value, nv_stat_sink) \
+                  nv_id_counter, nv_appended, nv_consulted, nv_mon_round, nv_mon_values, nv_g_values, nv_mon_stopped, nv_obs_values, nv_train_value, nv_valid_value, nv_stat_sink, \
+                  nv_h_n, nv_h_last, nv_h_value, nv_h_snap, nv_h_since, nv_h_below, nv_h_acc, nv_h_stop, nv_h_acc_j, nv_h_snap_j) \
+/* the monitor's state is the summary of the history fed so far (induction hypothesis of the history lemma) */ \
+__CPROVER_loop_invariant(NV_H_STATE(optimum) && nv_h_n == nv_consulted && !nv_h_stop && NV_H_WF && nv_h_since < patience && patience == nv_patience) \
 __CPROVER_loop_invariant(0 <= round && round <= max_rounds && max_rounds <= nv_max_rounds && nv_max_rounds + 1 <= nv_rows && result.m_statistics.rows == nv_rows && nv_rows <= 100000000 && result.m_statistics.cols == 8 && !nv_mon_stopped) \
 __CPROVER_loop_invariant(result.m_wlearners.size == (uint64_t)round && nv_appended == (uint64_t)round && nv_consulted == (uint64_t)round + 1) \
 __CPROVER_loop_invariant(optimum.m_round <= result.m_wlearners.size && nv_mon_round == optimum.m_round && nv_mon_values == optimum.m_values.id) \
 __CPROVER_loop_invariant(optimum.m_round != nv_g_round || optimum.m_values.id == nv_g_values) \
-__CPROVER_loop_invariant(values.rows == 2 && optimum.m_values.rows == 2) \
+__CPROVER_loop_invariant(values.rows == 2 && optimum.m_values.rows == 2 && nv_obs_values == values.id && values.id <= nv_id_counter) \
 __CPROVER_loop_invariant(result.m_errors_values == &values && result.m_train_samples == train_samples && result.m_valid_samples == valid_samples) \
 __CPROVER_decreases(max_rounds - round)
 /* the scan over the weak-learner prototypes: numerics only */
